@@ -240,7 +240,11 @@ Section Rec.
     (o = ONothing /\ apply_record st w (reread r) = (ev, st1, w1, ONothing)) \/
     (exists a, judged r a /\ o = apply (cfg st1) r a /\
        forall r2, same_but_expectation r r2 ->
-                  apply_record st w r2 = (ev, st1, w1, apply (cfg st1) r2 a)).
+                  apply_record st w r2 = (ev, st1, w1, apply (cfg st1) r2 a)) \/
+    (* a background `system` command (ends in '&'): spawned and not waited for; the output is
+       "no stdout, no error" whatever the expectation of the record *)
+    (exists l cs cmd ex rt, r = RSystem l cs cmd ex rt /\ o = OSystem None false /\
+       forall ex2, apply_record st w (RSystem l cs cmd ex2 rt) = (ev, st1, w1, OSystem None false)).
   Proof.
     intros H. destruct r; cbn [Runner.apply_record] in H;
       try (left; cbn [reread Runner.apply_record]; inversion H; subst; split; reflexivity).
@@ -249,17 +253,17 @@ Section Rec.
       + destruct (get_conn sc st w c) as [[[ev1 st2] w2] [id|]] eqn:G.
         * destruct (should_skip (labels st2) (engine sc) conds) eqn:S.
           -- left. cbn [reread Runner.apply_record]. rewrite M, G, S. inversion H; subst. split; reflexivity.
-          -- destruct (db_request sc w2 id) as [d w3] eqn:D. inversion H; subst. right.
+          -- destruct (db_request sc w2 id) as [d w3] eqn:D. inversion H; subst. right; left.
              exists (ADb d). split; [exact I|]. split; [reflexivity|].
              intros r2 Hs. destruct r2; cbn [same_but_expectation] in Hs; try contradiction.
              destruct Hs as (<- & <- & <- & <- & <-).
              cbn [Runner.apply_record apply]. rewrite M, G, S, D. reflexivity.
-        * inversion H; subst. right.
+        * inversion H; subst. right; left.
           exists (ADb (DErr (connect_failed_msg (makes w)))). split; [exact I|]. split; [reflexivity|].
           intros r2 Hs. destruct r2; cbn [same_but_expectation] in Hs; try contradiction.
           destruct Hs as (<- & <- & <- & <- & <-).
           cbn [Runner.apply_record apply apply_stmt]. rewrite M, G. reflexivity.
-      + inversion H; subst. right.
+      + inversion H; subst. right; left.
         exists (ADb (DErr m)). split; [exact I|]. split; [reflexivity|].
         intros r2 Hs. destruct r2; cbn [same_but_expectation] in Hs; try contradiction.
         destruct Hs as (<- & <- & <- & <- & <-).
@@ -270,21 +274,21 @@ Section Rec.
       + destruct (get_conn sc st w c) as [[[ev1 st2] w2] [id|]] eqn:G.
         * destruct (should_skip (labels st2) (engine sc) conds) eqn:S.
           -- left. cbn [reread Runner.apply_record]. rewrite M, G, S. inversion H; subst. split; reflexivity.
-          -- destruct (db_request sc w2 id) as [d w3] eqn:D. inversion H; subst. right.
+          -- destruct (db_request sc w2 id) as [d w3] eqn:D. inversion H; subst. right; left.
              exists (ADb d). split; [exact I|]. split; [reflexivity|].
              intros r2 Hs. destruct r2; cbn [same_but_expectation] in Hs; try contradiction.
              ++ destruct e0; try contradiction. destruct Hs as (<- & <- & <- & <- & <-).
                 cbn [Runner.apply_record apply]. rewrite M, G, S, D. reflexivity.
              ++ destruct Hs as (<- & <- & <- & <- & <- & _).
                 cbn [Runner.apply_record apply]. rewrite M, G, S, D. reflexivity.
-        * inversion H; subst. right.
+        * inversion H; subst. right; left.
           exists (ADb (DErr (connect_failed_msg (makes w)))). split; [exact I|]. split; [reflexivity|].
           intros r2 Hs. destruct r2; cbn [same_but_expectation] in Hs; try contradiction.
           ++ destruct e0; try contradiction. destruct Hs as (<- & <- & <- & <- & <-).
              cbn [Runner.apply_record apply apply_stmt]. rewrite M, G. reflexivity.
           ++ destruct Hs as (<- & <- & <- & <- & <- & _).
              cbn [Runner.apply_record apply apply_query]. rewrite M, G. reflexivity.
-      + inversion H; subst. right.
+      + inversion H; subst. right; left.
         exists (ADb (DErr m)). split; [exact I|]. split; [reflexivity|].
         intros r2 Hs. destruct r2; cbn [same_but_expectation] in Hs; try contradiction.
         ++ destruct e0; try contradiction. destruct Hs as (<- & <- & <- & <- & <-).
@@ -296,12 +300,16 @@ Section Rec.
       destruct (should_skip (labels st) [] conds) eqn:S.
       + left. cbn [reread Runner.apply_record]. rewrite S. inversion H; subst. split; reflexivity.
       + destruct (may_substitute substitute st false cmd) as [cmd'|m|] eqn:M.
-        * destruct (sys_request sc w) as [a w2] eqn:D. inversion H; subst. right.
+        * destruct (is_background cmd') eqn:B.
+          { inversion H; subst. right; right.
+            exists l, conds, cmd, stdout, r. split; [reflexivity|]. split; [reflexivity|].
+            intros ex2. cbn [Runner.apply_record]. rewrite S, M, B. reflexivity. }
+          destruct (sys_request sc w) as [a w2] eqn:D. inversion H; subst. right; left.
           exists (ASys a). split; [exact I|]. split; [reflexivity|].
           intros r2 Hs. destruct r2; cbn [same_but_expectation] in Hs; try contradiction.
           destruct Hs as (<- & <- & <- & <-).
-          cbn [Runner.apply_record apply]. rewrite S, M, D. reflexivity.
-        * inversion H; subst. right.
+          cbn [Runner.apply_record apply]. rewrite S, M, B, D. reflexivity.
+        * inversion H; subst. right; left.
           exists (ASys SysSpawnErr). split; [exact I|]. split; [reflexivity|].
           intros r2 Hs. destruct r2; cbn [same_but_expectation] in Hs; try contradiction.
           destruct Hs as (<- & <- & <- & <-).
@@ -339,7 +347,8 @@ Section Rec.
         * destruct (db_request sc w2 id). inversion H; subst. now rewrite G.
       + inversion H; subst. now rewrite G.
     - destruct (should_skip (labels st) [] conds); [inversion H; subst; reflexivity|].
-      destruct (may_substitute substitute st false cmd); try (inversion H; subst; reflexivity).
+      destruct (may_substitute substitute st false cmd) as [cmd'| |]; try (inversion H; subst; reflexivity).
+      destruct (is_background cmd'); inversion H; subst; reflexivity.
     - destruct c; inversion H; subst; reflexivity.
   Qed.
 
